@@ -9,6 +9,7 @@ import (
 	"strings"
 	"sync"
 	"sync/atomic"
+	"verif/h/own"
 
 	"github.com/biogo/biogo/align"
 	"github.com/biogo/biogo/alphabet"
@@ -68,7 +69,7 @@ func reject(k Case, ql bool) {
 		qry = seqOf(k.Letters, "ca", !ql)
 	case "alphabet":
 		a2, _ := alphabet.NewAlphabet(k.Letters, feat.DNA, alphabet.Letter(k.Letters[0]), 'n', true)
-		qry = linear.NewSeq("q", alphabet.BytesToLetters([]byte("ca")), a2)
+		qry = own.NewSeq("q", alphabet.BytesToLetters([]byte("ca")), a2)
 	}
 	mkAligner(kk).Align(ref, qry)
 }
@@ -309,7 +310,7 @@ func seqOf(def, s string, ql bool) align.AlphabetSlicer {
 		}
 		return linear.NewQSeq("q", qs, a, alphabet.Sanger)
 	}
-	return linear.NewSeq("s", alphabet.BytesToLetters([]byte(s)), a)
+	return own.NewSeq("s", alphabet.BytesToLetters([]byte(s)), a)
 }
 
 func evaluate(k Case) (out []finding) {
@@ -510,19 +511,19 @@ func illTyped(k Case) (out []finding) {
 	case "illegal-letter": // R or Q already contains a letter outside the alphabet
 	case "other-alphabet":
 		a2, _ := alphabet.NewAlphabet(k.Letters, feat.DNA, alphabet.Letter(k.Letters[0]), 'n', true)
-		qry = linear.NewSeq("q", alphabet.BytesToLetters([]byte(k.Q)), a2)
+		qry = own.NewSeq("q", alphabet.BytesToLetters([]byte(k.Q)), a2)
 	case "mixed-types":
 		qry = seqOf(k.Letters, k.Q, true)
 	case "mixed-types-2":
 		ref = seqOf(k.Letters, k.R, true)
 	case "nil-alphabet":
-		ref = linear.NewSeq("r", alphabet.BytesToLetters([]byte(k.R)), nil)
-		qry = linear.NewSeq("q", alphabet.BytesToLetters([]byte(k.Q)), nil)
+		ref = own.NewSeq("r", alphabet.BytesToLetters([]byte(k.R)), nil)
+		qry = own.NewSeq("q", alphabet.BytesToLetters([]byte(k.Q)), nil)
 	case "no-leading-gap":
 		def := k.Letters[1:] + k.Letters[:1]
 		a2, _ := alphabet.NewAlphabet(def, feat.DNA, alphabet.Letter(k.Letters[0]), 'n', true)
-		ref = linear.NewSeq("r", alphabet.BytesToLetters([]byte(k.R)), a2)
-		qry = linear.NewSeq("q", alphabet.BytesToLetters([]byte(k.Q)), a2)
+		ref = own.NewSeq("r", alphabet.BytesToLetters([]byte(k.R)), a2)
+		qry = own.NewSeq("q", alphabet.BytesToLetters([]byte(k.Q)), a2)
 	case "ragged-matrix", "short-matrix", "non-square-matrix", "empty-matrix":
 		// k.M is already malformed
 	}
